@@ -57,8 +57,9 @@ def show(t) -> str:
 
 
 class FloatOrder:
-    def __init__(self, state: State):
+    def __init__(self, state: State, facts=()):
         self.state = state
+        self.facts = list(facts)  # (p, q): the program compared fl(p) with fl(q) on this path and found fl(p) <= fl(q)
         self.vars = sorted({v for _, a in state.atoms for v in a.coef if len(a.coef) == 1 and a.const == 0 and list(a.coef.values())[0] == 1})
         self.memo = {}
 
@@ -175,6 +176,14 @@ class FloatOrder:
                 return True
             if self.nonpos(u[1], depth + 1) and self.le(u[2], v, depth + 1):
                 return True
+        # G7: a comparison the program itself made on this path
+        for p, q in self.facts:
+            if self.same(u, p) and self.same(q, v):
+                return True
+        if depth <= 2:
+            for p, q in self.facts:
+                if (self.same(u, p) or self.le(u, p, depth + 4)) and (self.same(q, v) or self.le(q, v, depth + 4)):
+                    return True
         # G5: transitivity through an input float
         if depth <= 3:
             for name in self.vars:
@@ -186,10 +195,10 @@ class FloatOrder:
         return False
 
 
-def seam_obligations(state: State, entries):
+def seam_obligations(state: State, entries, facts=()):
     """For consecutive interval entries (tuples whose first two items are Lin with trees) yield
     (i, ok, can_touch, text) for the obligation fl(end_i) <= fl(start_{i+1})."""
-    fo = FloatOrder(state)
+    fo = FloatOrder(state, facts)
     out = []
     for i in range(len(entries) - 1):
         u = entries[i][1]
